@@ -10,7 +10,7 @@ VALIDATE_MODELS = ['ws', 'utf8', 'graphemes']
 VALIDATION_CASES = {'quick': 150, 'thorough': 600}
 TIME_BUDGET = {'quick': 900, 'thorough': 3300}
 BOUNDS = {
-    'quick': 'inverse claim: <= 3 non-whitespace code points with every placement of single spaces in `from` and `to` '
+    'quick': 'repair on long texts whose byte length crosses 64 / 256 (concrete filler, a symbolic 2- or 3-byte character straddling the threshold, uniform operation vectors of length n-1, n, n+1); inverse claim: <= 3 non-whitespace code points with every placement of single spaces in `from` and `to` '
              '(all UTF-8 width combinations; grapheme mode over Sigma_g); repair claims: strings of <= 3 characters (grapheme '
              'mode <= 2 code points) x every operation vector of length n and uniform vectors of length n-1, n+1; totality of operations(): arbitrary from/to of <= 3 characters each',
     'thorough': 'same with 4 / 4 (grapheme mode 3) / 3 characters',
@@ -63,6 +63,13 @@ def shapes(tier):
     for wa in width_shapes(n_tot, widths=(1, 3)):
         for wb in width_shapes(n_tot, widths=(1, 3)):
             out.append({'mode': 'tot', 'g': False, 'wa': wa, 'wb': wb})
+    # long texts around byte-length thresholds (2^6, 2^7, 2^8): concrete filler, one symbolic multi-byte character that
+    # straddles the threshold, one symbolic character after it; uniform operation vectors of length n-1 / n / n+1
+    for L in ((64, 256) if tier == 'quick' else (32, 64, 128, 256, 512)):
+        for w in (2, 3):
+            for off in ((1,) if tier == 'quick' else (1, 2)):
+                out.append({'mode': 'long', 'g': False, 'fill': L - off, 'widths': [w, 1]})
+        out.append({'mode': 'long', 'g': True, 'fill': L - 1, 'widths': [2, 1]})
     out.sort(key=lambda s: -(len(s.get('widths', [])) + len(s.get('wa', [])) + len(s.get('wb', []))))
     return out
 
@@ -120,14 +127,38 @@ def run(ctx, shape, opts):
         ctx.require(chars_equal(ctx, out_chars(ctx, rr.fields[0]), tc), 'repair(from, operations(from, to)) == to')
         ctx.sample = {'mode': mode, 'graphemes': g, 'widths': shape['widths'], 'from_gaps': shape['from_gaps'],
                       'to_gaps': shape['to_gaps']}
+    elif mode == 'long':
+        tail = ctx.in_string('tail', shape['widths']).chars()
+        if g:
+            assume_sigma_g(ctx, tail)
+        chars = [Int(0x61, 'char')] * shape['fill'] + list(tail)
+        s = mkstr(ctx, chars)
+        units = units_of(ctx, chars, g)
+        n = len(units)
+        dl = ctx.in_choice('ops_len_delta', 3) - 1
+        k = ctx.in_choice('op0', 3)
+        names = [OPS[k]] * (n + dl)
+        rr = m.call('repair', s, ops_value(names), g)
+        ctx.out('repair_ok', rr.variant == 'Ok')
+        if dl != 0:
+            ctx.require(rr.variant == 'Err', 'length mismatch is an error')
+        else:
+            ctx.require(rr.variant == 'Ok', 'repair succeeds for an operation sequence of matching length')
+            oc = out_chars(ctx, rr.fields[0])
+            a = [c for c in chars if isinstance(c.v, int) or not ctx.branch(char_is_whitespace(c))]
+            b = [c for c in oc if not ctx.branch(char_is_whitespace(c))]
+            ctx.require(chars_equal(ctx, b, a), 'repair changes nothing but whitespace')
+            if names and names[0] == 'Keep':
+                ctx.require(chars_equal(ctx, oc, chars), 'an all-Keep sequence is the identity')
+        ctx.sample = {'mode': mode, 'graphemes': g, 'bytes': shape['fill'] + sum(shape['widths']), 'ops': names[:1], 'delta': dl}
     elif mode == 'rep':
         s = ctx.in_string('s', shape['widths'])
         chars = s.chars()
         if g:
             assume_sigma_g(ctx, chars)
         units = units_of(ctx, chars, g)
-        if g:
-            assume_no_mixed_units(ctx, chars, units)
+        # clusters that mix whitespace and other code points (" " + combining mark) are inside the claim: they are
+        # not whitespace characters, so repair must leave them alone
         n = len(units)
         dl = ctx.in_choice('ops_len_delta', 3) - 1   # -1, 0, +1
         ln = n + dl
@@ -216,6 +247,15 @@ def native_outputs(native, shape, inputs):
             if k != 'ok':
                 return {'panic': r}
             out['repair'] = r
+    elif mode == 'long':
+        st = [0x61] * shape['fill'] + list(inputs['tail'])
+        n = len(_gunits(native, st, g))
+        names = [OPS[inputs['op0']]] * (n + inputs['ops_len_delta'] - 1)
+        k, r = native_ok(native.call('ws_repair', s=st, ops=names, g=g))
+        if k != 'ok':
+            return {'panic': r}
+        out['repair_ok'] = 'Ok' in r
+        out['_repair'] = r
     elif mode == 'rep':
         n = len(_gunits(native, inputs['s'], g))
         ln = n + inputs['ops_len_delta'] - 1
@@ -252,10 +292,25 @@ def concrete_check(native, inputs, shape):
         elif o['repair']['Ok'] != t:
             failed.append('repair(from, operations(from, to)) == to')
         return failed
+    if mode == 'long':
+        st = [0x61] * shape['fill'] + list(inputs['tail'])
+        o = native_outputs(native, shape, inputs)
+        if 'panic' in o:
+            return ['no panic']
+        dl = inputs['ops_len_delta'] - 1
+        r = o['_repair']
+        if dl != 0:
+            return [] if 'Err' in r else ['length mismatch is an error']
+        if 'Ok' not in r:
+            return ['repair succeeds for an operation sequence of matching length']
+        failed = []
+        if [c for c in r['Ok'] if not py_is_ws(c)] != [c for c in st if not py_is_ws(c)]:
+            failed.append('repair changes nothing but whitespace')
+        if inputs['op0'] == 0 and r['Ok'] != st:
+            failed.append('an all-Keep sequence is the identity')
+        return failed
     if mode == 'rep':
         s = inputs['s']
-        if _mixed(native, s, g):
-            return []
         n = len(_gunits(native, s, g))
         dl = inputs['ops_len_delta'] - 1
         if n + dl < 0:
